@@ -22,6 +22,8 @@ Theorem position_line_col :
   forall (graphic : Z -> bool) (cps : list cp) (off : Z),
     Forall cp_ok cps -> 0 <= off <= len (bytes cps) ->
     (exists pre cur post, located cps off pre cur post) /\
+    (forall pre cur post pre' cur' post', located cps off pre cur post -> located cps off pre' cur' post' ->
+       pre = pre' /\ cur = cur' /\ post = post') /\
     (forall pre cur post, located cps off pre cur post ->
        exists ctx, position graphic (bytes cps) off =
                      Done (1 + breaks (runes pre), 1 + len (last_line (runes pre)), ctx)).
@@ -107,3 +109,12 @@ Theorem error_lexer_carries_position :
                          new_error_lexer graphic z = position graphic d (pos z).
 Proof. exact new_error_lexer_total_proof. Qed.
 Print Assumptions error_lexer_carries_position.
+
+(* The position carried by an error made from a cursor is the position of a byte inside the input (the
+   terminator position len included): the cursor's own offset when it is inside, the nearest end otherwise. *)
+Theorem error_offset_in_input :
+  forall (graphic : Z -> bool) z d, buf z = d ++ [0] ->
+    exists k, 0 <= k <= len d /\ new_error_lexer graphic z = position graphic d k /\
+              (0 <= pos z <= len d -> k = pos z).
+Proof. exact error_offset_in_input_proof. Qed.
+Print Assumptions error_offset_in_input.
